@@ -521,6 +521,7 @@ Proof.
   - eapply driver_place; eauto.
   - destruct H as (V & S & B & R & _). eapply Inv_place_ext; eauto. apply rframe_same. exact R.
   - exact I.
+  - destruct (transition_vonly env _ _ _ _ _ H2 K) as [K1 _]. eapply (perform_place s1); [eapply transition_place; eauto|exact K1|unfold vstate_of; rewrite H3; reflexivity|eauto].
 Qed.
 
 (* C07 (places) and C10 (access) over every finite history, any controller *)
